@@ -220,10 +220,10 @@ def run(prog, chk):
     for cq in (OTFC, IOTF, VCFF2):
         rows += [(cq, "optimizeCFF", "outline"), (cq, "roundTolerance", "outline"), (cq, "optimizeCFF", "post")]
     rows += [(OTFC, "cffVersion", "post"), (OTFC, "subroutinizer", "post"), (VCFF2, "cffVersion", "post")]
-    check_plumbing(prog, chk, "R12.4", rows)
-    check_forwarding(prog, chk, "R12.4")
+    chk.guard(check_plumbing, prog, chk, "R12.4", rows)
+    chk.guard(check_forwarding, prog, chk, "R12.4")
     chk.minimum("R12.4", 15)
-    r126(prog, chk)
+    chk.guard(r126, prog, chk)
 
 
 def r126(prog, chk):
